@@ -15,9 +15,13 @@ for id in C12 C13; do
   while [ $s -le $seeds ]; do
     ref=""
     for w in 1 4 16; do for rep in a b; do
+      rm -f "$tmp/d.$w.$rep"
       ./target/sim/semver-dst check $id --seed $((s * 7919 + 13)) --runs $runs --workers $w --no-enum \
-         --dump-digests $tmp/d.$w.$rep --evidence $tmp/e.json --replay-dir $tmp/r --known $VERIF/known_findings.json >/dev/null 2>&1
+         --dump-digests "$tmp/d.$w.$rep" --evidence "$tmp/e.json" --replay-dir "$tmp/r" --known "$VERIF/known_findings.json" >/dev/null 2>&1
+      rc=$?
       procs=$((procs+1))
+      # a run that did not produce a verdict (or a dump) is not evidence of anything
+      if [ $rc -ne 0 ] || [ ! -s "$tmp/d.$w.$rep" ]; then echo "RUN-FAILED $id seed=$s workers=$w rep=$rep rc=$rc"; bad=$((bad+1)); continue; fi
       h=$(sha256sum < $tmp/d.$w.$rep)
       if [ -z "$ref" ]; then ref="$h"; elif [ "$h" != "$ref" ]; then echo "DIVERGENCE $id seed=$s workers=$w rep=$rep"; bad=$((bad+1)); fi
     done; done
@@ -27,12 +31,12 @@ for id in C12 C13; do
 done
 for id in C12 C13; do
   for w in 3 16; do
-    ./target/sim/semver-dst check $id --workers $w --evidence $tmp/full.$id.$w.json --replay-dir $tmp/r >/dev/null 2>&1
+    ./target/sim/semver-dst check $id --workers $w --evidence "$tmp/full.$id.$w.json" --replay-dir "$tmp/r" --known "$VERIF/known_findings.json" >/dev/null 2>&1 || { echo "RUN-FAILED $id full check workers=$w"; bad=$((bad+1)); }
     procs=$((procs+1))
   done
   a=$(python3 -c "import json;print(json.load(open('$tmp/full.$id.3.json'))['coverage']['event_log_digest'])")
   b=$(python3 -c "import json;print(json.load(open('$tmp/full.$id.16.json'))['coverage']['event_log_digest'])")
-  if [ "$a" = "$b" ]; then echo "$id: full quick check digest identical at 3 and 16 workers: $a"; else echo "DIVERGENCE $id full digest $a vs $b"; bad=$((bad+1)); fi
+  if [ -n "$a" ] && [ "$a" = "$b" ]; then echo "$id: full quick check digest identical at 3 and 16 workers: $a"; else echo "DIVERGENCE $id full digest $a vs $b"; bad=$((bad+1)); fi
 done
 rm -rf $tmp
 echo "processes: $procs, divergences: $bad"
